@@ -169,6 +169,8 @@ class Units:
             lid = T.local_of(n)
             if lid is not None:
                 return self.env.get(lid, BOT)
+            if n["res"].get("r") == "def" and n["res"].get("dk", "").startswith("Const") and (n.get("ty") or "") in ("usize", "u32", "u64", "i32", "i64", "isize"):
+                return N          # a numeric constant is a plain number, never a position obtained from a string
             return TOP
         if k == "cast":
             return self.unit(n["e"])
